@@ -357,6 +357,17 @@ def r08_5(ck):
     ck.require(ok, 'R08.5', f, a,
                'the updater is applied to (current value, update)',
                'updater called with %s' % A.unparse(c), a)
+    ga = cfg.guards(cfg.node(a))
+    upd_name = A.params_of(f.node)[1]
+    valdep = {x for x in ga if x[0] in ('truthy', 'falsy', '==', '!=', 'is',
+                                        'isnot') and upd_name in
+              ' '.join(str(y) for y in x[1:]).split()}
+    ck.require(not valdep, 'R08.5', f, a,
+               'the updater is applied whatever the value of the update '
+               '(0, False, "" and {} are updates too)',
+               'the leaf update is skipped depending on the value of the '
+               'update (%s): a `set` to 0/False/"" would be lost' % sorted(
+                   valdep), a)
     conv = set()
     skip = set()
     for s in A.walk_no_nested(f.node):
